@@ -10,6 +10,7 @@ mod failpath;
 mod fsm;
 mod gate;
 mod cgen;
+mod cachesched;
 mod clocksim;
 mod img;
 mod inflight;
@@ -50,6 +51,8 @@ fn main() {
         "abufallocchild" => abuf::allocchild(&opts),
         "gate" => gate::run(&opts),
         "cgen" => cgen::run(&opts),
+        "cachesched" => cachesched::run(&opts),
+        "cacheschedchild" => cachesched::child(&opts),
         "clocksim" => clocksim::run(&opts),
         "failpath" => failpath::run(&opts),
         "failpathchild" => failpath::child(&opts),
